@@ -3,5 +3,8 @@ EXTENDS ExcHelpers, Json
 Emit == done => PrintT(ToJson([prog |-> prog, flag0 |-> flag0, reraise |-> reraise, propagates |-> propagates,
                                logged |-> logged, direct |-> direct,
                                \* what ctx.force_reraise() called AFTER the with statement raises: the exception still held, else a fresh one (4)
-                               post |-> IF saved = 0 THEN 4 ELSE saved]))
+                               post |-> IF saved = 0 THEN 4 ELSE saved,
+                               \* the same context object entered once more, in the handler of ANOTHER exception (5), with an
+                               \* empty body: entry captures the exception active then; the flag is what the first use left
+                               second |-> IF reraise THEN 5 ELSE 0]))
 =============================================================================
